@@ -244,6 +244,19 @@ func runC05Templates(steps sx.List) (sx.SX, string) {
 			fail = fmt.Sprintf("template %d (%s): the reused object gave %s, a fresh one %s", i, sx.Quote(sx.AsString(sx.AsList(st)[0])), sx.Text(got), sx.Text(want))
 		}
 		out = append(out, got)
+		// an empty token list (nil, then of length zero) given to the reused object: what a fresh object makes of it
+		if fail == "" {
+			for _, empty := range [][]*tokenizers.Token{nil, {}} {
+				fresh := mustache.NewMustacheTemplate()
+				e1, e2 := tpl.SetOriginalTokens(empty), fresh.SetOriginalTokens(empty)
+				r1, x1 := tpl.Evaluate()
+				r2, x2 := fresh.Evaluate()
+				if (e1 == nil) != (e2 == nil) || (x1 == nil) != (x2 == nil) || r1 != r2 || tpl.Template() != fresh.Template() || len(tpl.ResultTokens()) != len(fresh.ResultTokens()) || len(tpl.InitialTokens()) != len(fresh.InitialTokens()) {
+					fail = fmt.Sprintf("template %d: after %s, an empty token list (nil: %v) leaves the reused object rendering %s with %d result tokens, a fresh one %s with %d", i, sx.Quote(sx.AsString(sx.AsList(st)[0])), empty == nil, sx.Quote(r1), len(tpl.ResultTokens()), sx.Quote(r2), len(fresh.ResultTokens()))
+					break
+				}
+			}
+		}
 	}
 	return out, fail
 }
